@@ -107,6 +107,11 @@ theorem stopCall_mz (cfg : Cfg) (s : St) (err : Option GErr) (user : Bool) : MZ 
   refine stopLoop_mz cfg _ err user ?_
   split <;> exact x
 
+theorem userStop_mz (cfg : Cfg) (s : St) : MZ s (userStop cfg s) := by
+  rcases userStop_cases cfg s with ⟨hu, _, _⟩ | hu <;> rw [hu]
+  · exact MZ_frame rfl
+  · exact stopCall_mz _ _ _ _
+
 theorem rejoinAfterError_mz (cfg : Cfg) (s : St) (e : GErr) : MZ s (rejoinAfterError cfg s e) := by
   unfold rejoinAfterError
   simp only []
@@ -212,7 +217,7 @@ theorem step_mz (cfg : Cfg) (s : St) (e : Ev)
     simp only [step]; split
     · exact h0
     · rw [joinAndSync_member']; exact h0
-  | stop => exact via (stopCall_mz cfg s none true) rfl
+  | stop => exact via (userStop_mz cfg s) rfl
   | coordDone r =>
     simp only [step]; split
     · exact h0
